@@ -7,4 +7,4 @@ for k in 1 2; do
   SEED_SRC=/tmp/seed-out/$T SEED_DST_K=$D /venv/bin/python /verif/tools/keep_seed.py $P $k 2>&1 | tail -1
 done
 git -C /repo worktree remove --force /tmp/wt-$T 2>/dev/null
-/venv/bin/python /verif/tools/seed_matrix.py --update 2>&1 | grep -E "^$P-($(( (R-1)*2 + 1 ))|$(( (R-1)*2 + 2 ))) "
+/venv/bin/python /verif/tools/seed_matrix.py --update --only $P-$(( (R-1)*2 + 1 )),$P-$(( (R-1)*2 + 2 )) 2>&1 | grep -E "^$P-"
